@@ -27,23 +27,17 @@ Fail(mon, line) == [mon |-> mon, line |-> line, sc |-> ex.sc, run |-> ex.run]
 
 Init ==
   /\ l = 1 /\ sh = EmptyShared /\ ob = EmptyShared
-  /\ sg = SeqGhostInit(EmptyMap, <<>>)
+  /\ sg = SeqGhostInit(EmptyMap)
   /\ ex = [sc |-> -1, run |-> -1]
   /\ sum = [execs |-> 0, calls |-> 0, conform |-> 0, drifts |-> {}, fails |-> {}, kf |-> {}, matches |-> 0, trades |-> 0]
 
 Line == Rec[l]
 
-\* effective arrival order of the observed level: first ticket of each live id
-LiveOrder(o) ==
-  LET firsts == {k \in DOMAIN o.tickets : IsOrder(o.qmap[o.tickets[k]]) /\ \A j \in 1..(k-1) : o.tickets[j] # o.tickets[k]}
-      ks == SetToSortSeq(firsts, <)
-  IN [n \in DOMAIN ks |-> o.tickets[ks[n]]]
-
 DoReset ==
   /\ Line.k = "reset"
   /\ LET o == ObsOf(Line.st) IN
      /\ sh' = o /\ ob' = o
-     /\ sg' = SeqGhostInit(o.qmap, LiveOrder(o))
+     /\ sg' = SeqGhostInit(o.qmap)
      /\ ex' = [sc |-> Line.sc, run |-> Line.run]
      /\ sum' = AddFails([sum EXCEPT !.execs = @ + 1],
                         IF ApiOk(Line.st) THEN {} ELSE {[mon |-> "C01", line |-> l, sc |-> Line.sc, run |-> Line.run]})
@@ -58,7 +52,7 @@ DoCall ==
          mret == IF run.hang THEN [t |-> "hang"] ELSE run.me.ret
          conf == IF modelled THEN mret.t = r.t /\ RetEq(mret, r) /\ run.sh = post
                  ELSE r.t = "ro" /\ sh = post
-         v    == CallVerdict(ob, c, r, post, sg, IF modelled THEN mret ELSE NoOrder)
+         v    == CallVerdict(ob, c, r, post, sg, IF modelled THEN [ret |-> mret, sh |-> run.sh] ELSE [ret |-> r, sh |-> sh])
          extra == (IF ApiOk(Line.st) THEN {} ELSE {"C01"})
                   \cup (IF r.t = "panic" THEN {"PANIC"} ELSE {})
                   \cup (IF r.t = "hang" /\ c.op # "match" THEN {"HANG"} ELSE {})
